@@ -76,6 +76,9 @@ package dastard
 //@   ensures inrange: SpecsInRange(result, len(raw), frameIndexOfraw0, MinPre(s))
 //@   ensures state: EMTOrder(s, frameIndexOfraw0, len(raw)) && Pending(s, frameIndexOfraw0, len(raw)) && unchanged(s.npre, s.nsamp, s.mode, s.threshold, s.nmonotone, s.enableZeroThreshold)
 //@   ensures reach: s.nextFrameIndexToInspect - frameIndexOfraw0 >= len(raw) - (s.nsamp - s.npre)
+// Except in the mode that deliberately lets records overlap, no record reaches into samples that have not
+// been searched for the next edge yet (so a later block can never reveal an edge inside an emitted record).
+//@   ensures inspected: s.mode != 0 ==> (forall p int :: {at(result, p)} result.off <= p && p < result.off + len(result) ==> at(result, p).firstRisingFrameIndex + at(result, p).nsamp - at(result, p).npre <= s.nextFrameIndexToInspect)
 //@   modifies s.nextFrameIndexToInspect, s.t, s.u, s.v, s.iFirstCheckSentinel
 //@   loop 1
 //@     invariant maxLookback == s.npre && maxLookahead == s.nsamp - s.npre && maxNmonotone == maxLookahead && iLast == len(raw) - 1 - maxLookahead && EMTOK(s) && unchanged(s.npre, s.nsamp, s.mode, s.threshold, s.nmonotone, s.enableZeroThreshold)
@@ -83,6 +86,7 @@ package dastard
 //@     invariant order: 0 <= t && t <= u && u <= v && (v > 0 ==> v < frameIndexOfraw0 + iFirst)
 //@     invariant pending: v > 0 && u != v ==> v - frameIndexOfraw0 >= s.npre && v - frameIndexOfraw0 + s.nsamp - s.npre <= len(raw)
 //@     invariant specs: fresh(recordSpecs) && allocated(recordSpecs) && SpecsInRange(recordSpecs, len(raw), frameIndexOfraw0, MinPre(s))
+//@     invariant inspected: s.mode != 0 ==> (forall p int :: {at(recordSpecs, p)} recordSpecs.off <= p && p < recordSpecs.off + len(recordSpecs) ==> at(recordSpecs, p).firstRisingFrameIndex + at(recordSpecs, p).nsamp - at(recordSpecs, p).npre <= frameIndexOfraw0 + iFirst)
 
 //@ func (EMTState).valid
 //@   props C08
